@@ -616,9 +616,9 @@ def _trig_shift(name, s):
     k, x = r
     k %= 4
     if name == 'sin':
-        return [x.sin(), x.cos(), -x.sin(), -x.cos()][k] if k else None
+        return [x.sin, x.cos, lambda: -x.sin(), lambda: -x.cos()][k]()
     else:
-        return [x.cos(), -x.sin(), -x.cos(), x.sin()][k] if k else None
+        return [x.cos, lambda: -x.sin(), lambda: -x.cos(), x.sin][k]()
 
 
 def fn_pow(base, r):
